@@ -51,7 +51,7 @@ pub fn build(
     let object_code_maps =
         build_object_code_maps(doc, &type_space, &object_tree, base_ctx, diagnostics);
     #[cfg(feature = "yuja_qmluic_verif")]
-    verif_hook::observe("built", &object_tree, &object_code_maps);
+    verif_hook::observe("built", &object_tree, &object_code_maps, diagnostics.len());
 
     let ctx = BuildDocContext::new(doc, &type_space, &object_tree, &object_code_maps, base_ctx);
     let form = UiForm::build(&ctx, object_tree.root(), diagnostics);
@@ -108,7 +108,7 @@ pub fn build(
     };
 
     #[cfg(feature = "yuja_qmluic_verif")]
-    verif_hook::observe("final", &object_tree, &object_code_maps);
+    verif_hook::observe("final", &object_tree, &object_code_maps, diagnostics.len());
 
     Some((form, ui_support))
 }
